@@ -23,6 +23,8 @@ pub struct SchedState {
     spin_hint: bool,
     same_task_run: u32,
     pub points: [u64; 8],
+    /// longest sleep the code under test asked for (nanoseconds)
+    pub max_sleep_ns: u64,
 }
 impl SchedState {
     fn next_byte(&mut self) -> Option<u8> {
@@ -127,6 +129,11 @@ impl SchedHook for Hook {
         }
         shuttle::thread::yield_now();
     }
+    fn sleep_requested(&self, dur: std::time::Duration) {
+        if let Ok(mut st) = self.st.try_borrow_mut() {
+            st.max_sleep_ns = st.max_sleep_ns.max(dur.as_nanos().min(u64::MAX as u128) as u64);
+        }
+    }
     fn timeout_budget(&self) -> u32 {
         // 0..=3 yields before a timed wait reports a timeout; 1 once the stream is exhausted
         match self.st.borrow_mut().next_byte() {
@@ -153,6 +160,8 @@ pub struct Explored {
     pub preemptions: u64,
     pub decisions_used: usize,
     pub points: [u64; 8],
+    /// longest sleep requested by the code under test, in nanoseconds
+    pub max_sleep_ns: u64,
     /// panic out of the execution (task panic, deadlock, step bound)
     pub panic: Option<PanicInfo>,
     pub step_bound_hit: bool,
@@ -210,6 +219,7 @@ where
         preemptions: s.preemptions,
         decisions_used: s.pos,
         points: s.points,
+        max_sleep_ns: s.max_sleep_ns,
         panic,
         step_bound_hit,
         deadlock,
@@ -259,6 +269,7 @@ where
         preemptions: 0,
         decisions_used: 0,
         points: s.points,
+        max_sleep_ns: s.max_sleep_ns,
         panic,
         step_bound_hit,
         deadlock,
